@@ -140,7 +140,12 @@ def _library_frame(e):
         if x is None or id(x) in seen:
             continue
         seen.add(id(x))
-        for f in reversed(traceback.extract_tb(x.__traceback__)):
+        frames = traceback.extract_tb(x.__traceback__)
+        if any(f.filename.endswith('/vf/ast.py') or f.filename.endswith('/vf/gen.py') for f in frames):
+            # raised while the harness was still building its input (AST -> library objects): a generator that produces
+            # something the library rejects is a harness error, never a finding
+            continue
+        for f in reversed(frames):
             if '/pytableaux/' in f.filename:
                 return x, f'{f.filename.rsplit("/", 1)[-1]}:{f.name}'
         stack += list(getattr(x, 'exceptions', ())) + [x.__cause__, x.__context__]
